@@ -24,7 +24,7 @@
    sig (16-bit samples, a function of the absolute sample index, so block k is the same whoever encodes it): 0 digital silence,
    1 speech-like, 2 music-like, 3 noise at -12 dB, 4 full-scale square wave with full-scale noise bursts, 5 noise of +-3 units,
    6 speech with pauses of digital silence, 7 family 4 at -18 dB, 8 pure tone of 64 units, 9 chord of a few hundred units,
-   10 / 11 channels with nothing in common, 12..17 very quiet material (tones of 3..20 units, +-1 dither, +-10 noise, fade-outs).
+   10 / 11 channels with nothing in common, 12..17 very quiet material (tones of 3..20 units, +-1 dither, +-10 noise, fade-outs), 18 / 19 full-scale 70 Hz sine / 90 Hz square.
    P kind R: single-stream packets of duration fd merged `fec` at a time by the repacketizer (the stream's packets last fd*fec).
    Decoders use the format given at creation; each has a float twin ("shadow") fed the same calls, from whose
    output the 24-bit / 16-bit sample relations are measured (mismatch counts, never a verdict).
@@ -157,6 +157,10 @@ static opus_int16 sig_sample(int sig, int fs, int c, long i)
       }
       return (opus_int16)floor(v + 0.5);
    }
+   /* families 18, 19: loud low-frequency material whose half waves span frame ends (18: 70 Hz full-scale sine, 19: 90 Hz full-scale
+      square wave), so that a frame regularly ends inside a half wave the soft clipper is working on */
+   if (sig == 18) return (opus_int16)floor(32767.0 * sin(2 * M_PI * 70.0 * (double)i / fs + 0.9 * c) + 0.5);
+   if (sig == 19) return (fmod((double)i / fs * 90.0 + 0.23 * c, 1.0) < 0.5) ? 32767 : -32767;
    switch (sig) {
    case 0: return 0;
    case 6:   /* speech with pauses of digital silence: 400 ms on, 300 ms off */
